@@ -151,6 +151,10 @@ func (*cache).Set
   callback requires evicted_unlinked_only_prev: (let s = addr(c, "usage") in let n = prev(addr(c, "usage").next.next) in
     s.prev == (s == n ? s : prev(addr(c, "usage").prev)) &&
     (forall k: haskey(c.items, k) ==> (let a = addr(mapget(c.items, k), "used") in a.prev == (a == n ? s : prev(a.prev)))))
+  // ... and its size has been released before the callback can look (Stats
+  // from inside OnDelete, or a re-entrant Set deciding whether room is needed)
+  callback requires evicted_size_released:
+    (c.size - (prev(c.size) - (len(cbarg0) + len(cbarg1)))) % 18446744073709551616 == 0
   callback modifies c.items, c.size, c.hit, c.miss, allof("listItem"), allof("map[string]*item")
   callback ensures !locked(c.lock)
   ensures unlocked: !locked(c.lock)
